@@ -40,6 +40,7 @@ Fixpoint promotion_negative (c : cond) (o : obj) : bool :=
   | CIsSubclass cs => match o with OClass k => existsb (promoted_cls k) cs | _ => false end
   | CNot c => promotion_negative c o
   | CPAnd a b => promotion_negative a o || promotion_negative b o
+  | CIfExp _ a b => promotion_negative a o || promotion_negative b o
   | CAnd a b => promotion_negative a o || promotion_negative b o
   | COr a b => promotion_negative a o || promotion_negative b o
   | _ => false
@@ -63,6 +64,7 @@ Fixpoint has_seqis_false (c : cond) : bool :=
   | CSeqIs po => negb po
   | CNot c => has_seqis_false c
   | CPAnd a b => has_seqis_false a || has_seqis_false b
+  | CIfExp _ a b => has_seqis_false a || has_seqis_false b
   | CAnd a b => has_seqis_false a || has_seqis_false b
   | COr a b => has_seqis_false a || has_seqis_false b
   | _ => false
@@ -85,6 +87,7 @@ Fixpoint assert_promotion (c : cond) (o : obj) : bool :=
   | CAssertInst c1 => negb (isinst o c1) && numeric_like o
   | CNot c => assert_promotion c o
   | CPAnd a b => assert_promotion a o || assert_promotion b o
+  | CIfExp _ a b => assert_promotion a o || assert_promotion b o
   | CAnd a b => assert_promotion a o || assert_promotion b o
   | COr a b => assert_promotion a o || assert_promotion b o
   | _ => false
@@ -104,6 +107,7 @@ Fixpoint generic_pattern_negative (c : cond) (o : obj) : bool :=
   | CTypeIs t => existsb (fun p => is_generic_pat p && negb (member_b o p)) t && is_collection o
   | CNot c => generic_pattern_negative c o
   | CPAnd a b => generic_pattern_negative a o || generic_pattern_negative b o
+  | CIfExp _ a b => generic_pattern_negative a o || generic_pattern_negative b o
   | CAnd a b => generic_pattern_negative a o || generic_pattern_negative b o
   | COr a b => generic_pattern_negative a o || generic_pattern_negative b o
   | _ => false
@@ -136,6 +140,7 @@ Fixpoint cond_ok (c : cond) (o : obj) : bool :=
                  && forallb (fun p => match p with VTuple _ => false | VAny => false | VGen GSeqPat => false | VGen GMapPat => false | _ => true end) t
   | CNot c => cond_ok c o
   | CPAnd a b => cond_ok a o && cond_ok b o
+  | CIfExp _ a b => cond_ok a o && cond_ok b o
   | CAnd a b => cond_ok a o && cond_ok b o
   | COr a b => cond_ok a o && cond_ok b o
   | _ => true
